@@ -9,6 +9,8 @@ use std::io;
 
 pub use client::Channel;
 pub(crate) use server::start_rpc_server;
+#[cfg(feature = "verif-hooks")]
+pub(crate) use server::verif_handle_connection;
 pub use status::{ArchivedErrorCode, ArchivedStatus, ErrorCode, Status};
 
 #[derive(Debug, thiserror::Error)]
